@@ -379,8 +379,8 @@ def timer_case(res, T):
 
 
 def run(ctx):
-    fns = [(h1_case, ctx.scale(120, 2000, 600)), (loss_case, ctx.scale(80, 1200, 400)), (ws_case, ctx.scale(24, 300, 100)),
-           (h2_case, ctx.scale(24, 300, 100)), (h2_blocked_eof_case, ctx.scale(8, 100, 30)), (h1_close_pipelined_case, ctx.scale(8, 100, 30)), (terminate_case, ctx.scale(12, 100, 40))]
+    fns = [(h1_case, ctx.scale(360, 2000, 600)), (loss_case, ctx.scale(240, 1200, 400)), (ws_case, ctx.scale(48, 300, 100)),
+           (h2_case, ctx.scale(48, 300, 100)), (h2_blocked_eof_case, ctx.scale(16, 100, 30)), (h1_close_pipelined_case, ctx.scale(16, 100, 30)), (terminate_case, ctx.scale(12, 100, 40))]
     oracle_failures, descs = [], []
     for fn, n in fns:
         for i in range(n):
@@ -391,7 +391,7 @@ def run(ctx):
     # timer correspondence on fresh runs
     cases, metas = [], []
     rng = ctx.rng
-    for i in range(ctx.scale(100, 1500, 400)):
+    for i in range(ctx.scale(200, 1500, 400)):
         h = h1_history(rng)
         for backend, runner in (("asyncio", W.run_asyncio), ("trio", W.run_trio)):
             res = runner(http_app(h["delays"]), make_cfg(h["T"]), h["script"], tail=h["expected_close"] + h["T"] * 5 + 50)
